@@ -140,6 +140,9 @@ func c12Specs() []c12Spec {
 		{name: "regions", maxsize: 100, uptime: sec, sets: six, touch: []string{"key-1", "key-2"}},
 		{name: "regions-ttl", maxsize: 100, uptime: sec, sets: sixTTL, touch: []string{"key-1", "key-2"}},
 		{name: "old-origin", maxsize: 100, uptime: 1000 * int64(time.Hour), sets: sixMixed, touch: []string{"key-2", "key-3"}},
+		// a FULL cache (six entries of total cost 12 in a cache of capacity 12): loading its stream fills the loader's
+		// main space while the last region is being read
+		{name: "full", maxsize: 12, uptime: sec, sets: six, touch: []string{"key-1", "key-2"}},
 		{name: "multiblock", maxsize: 1000, uptime: sec, sets: big, stride: 65521},
 	}
 }
